@@ -40,11 +40,12 @@ impl<'a> Request<'a> {
     }
 }
 
-#[derive(Debug)]
 pub struct Autocompletion<'a> {
     pub autocompleted: Option<usize>,
     pub buffer: &'a mut [u8],
     pub partial: bool,
+//@ /// GHOST: the candidates merged so far (erased at run time)
+//@ pub cands: Ghost<Seq<Seq<u8>>>,
 }
 
 impl<'a> Autocompletion<'a> {
@@ -64,11 +65,13 @@ impl<'a> Autocompletion<'a> {
 //@ }
     pub fn new(buffer: &'a mut [u8]) -> Self {
 //@ ensures r.wf(), r.room() == old(buffer)@.len(), r.state() == (AcState { auto: None, partial: false }),
-//@     r.buf() == old(buffer)@, r.fin() == final(buffer)@,   // [C11]
+//@     r.buf() == old(buffer)@, r.fin() == final(buffer)@, r.cands@ == Seq::<Seq<u8>>::empty(),   // [C11]
+//@     ac_inv(r.state(), r.cands@, r.room()),   // [C11]
         Self {
             autocompleted: None,
             buffer,
             partial: false,
+//@ cands: Ghost(Seq::empty()),
         }
     }
 
@@ -90,7 +93,7 @@ impl<'a> Autocompletion<'a> {
 
     /// Mark this autocompletion as partial
     pub fn mark_partial(&mut self) {
-//@ ensures final(self).state() == (AcState { partial: true, ..old(self).state() }), final(self).room() == old(self).room(),
+//@ ensures final(self).state() == (AcState { partial: true, ..old(self).state() }), final(self).room() == old(self).room(), final(self).cands == old(self).cands,
 //@     final(self).fin() == old(self).fin(), final(self).wf() == old(self).wf(), final(self).buf() == old(self).buf(),
         self.partial = true;
     }
@@ -102,18 +105,43 @@ impl<'a> Autocompletion<'a> {
 //@     // C11: the merged continuation is the common prefix (on a character boundary) of what was there and the
 //@     // new candidate; it is marked partial as soon as it is shorter than a candidate or a second one arrives
 //@     final(self).state() == merge_step(old(self).room(), old(self).state(), autocompletion.spec_bytes()),   // [C11]
+//@     final(self).cands@ == old(self).cands@.push(autocompletion.spec_bytes()),
+//@     // C11: what is merged stays a common continuation of all candidates, and the completion is called complete
+//@     // (space appended) only when exactly one candidate was merged
+//@     ac_sem(old(self).state(), old(self).cands@) ==> ac_sem(final(self).state(), final(self).cands@),   // [C11]
+//@     ac_sem(old(self).state(), old(self).cands@) && ac_exact(old(self).state(), old(self).cands@)
+//@         ==> ac_exact(final(self).state(), final(self).cands@),   // [C11]
+//@     // C11: as long as every candidate fits, the merged continuation is their longest common continuation
+//@     ac_sem(old(self).state(), old(self).cands@) && ac_lcc(old(self).state(), old(self).cands@, old(self).room())
+//@         ==> ac_lcc(final(self).state(), final(self).cands@, old(self).room()),   // [C11]
+//@     ac_inv(old(self).state(), old(self).cands@, old(self).room()) ==> ac_inv(final(self).state(), final(self).cands@, old(self).room()),   // [C11]
 //@     final(self).buf().len() == old(self).buf().len(),
 //@     final(self).state().auto is None ==> final(self).buf() == old(self).buf(),
 //@     old(self).state().auto is Some ==> final(self).state().auto is Some,
 //@ ---
 //@ proof { broadcast use axiom_str_len_bound; broadcast use lemma_str_view_bytes; }
 //@ let ghost cand = autocompletion.spec_bytes();
+//@ proof { self.cands = Ghost(self.cands@.push(cand)); }
         if autocompletion.is_empty() || self.buffer.is_empty() {
             self.partial = self.partial
                 || self.autocompleted.is_some()
                 || (self.buffer.is_empty() && !autocompletion.is_empty());
             self.autocompleted = Some(0);
-//@ proof { assert(self.buffer@.subrange(0, 0) =~= Seq::<u8>::empty()); }
+//@ proof {
+//@     assert(self.buffer@.subrange(0, 0) =~= Seq::<u8>::empty());
+//@     assert forall|i: int| 0 <= i < self.cands@.len() implies is_prefix_of(Seq::<u8>::empty(), #[trigger] self.cands@[i]) by {
+//@         assert(self.cands@[i].subrange(0, 0) =~= Seq::<u8>::empty());
+//@     }
+//@     if cand.len() == 0 { assert(cand =~= Seq::<u8>::empty()); }
+//@     // lcc: the empty candidate has the empty continuation in common with anything
+//@     assert(self.cands@.drop_last() =~= old(self).cands@);
+//@     if cand.len() == 0 && old(self).cands@.len() > 0 {
+//@         let prev = lcc(old(self).cands@);
+//@         assert(cpl_pred(cand, prev, 0)) by { assert(cand.subrange(0, 0) =~= prev.subrange(0, 0)); }
+//@         lemma_cpl_unique(cand, prev, 0);
+//@         assert(cand.subrange(0, 0) =~= Seq::<u8>::empty());
+//@     }
+//@ }
             return;
         }
 
@@ -121,7 +149,22 @@ impl<'a> Autocompletion<'a> {
         // only common prefix
         let len = match self.autocompleted() {
             Some(current) => utils::common_prefix_len(autocompletion, current),
-            None => autocompletion.len(),
+            None => {
+                // first candidate: keep as much of it as fits (cut at a char boundary),
+                // so that following candidates are still compared with it
+                let mut len = autocompletion.len().min(self.buffer.len());
+//@ proof { is_char_boundary_start_end_of_seq(cand); }
+                while !autocompletion.is_char_boundary(len) {
+//@ invariant len <= cand.len(), len <= self.buffer@.len(), autocompletion.spec_bytes() == cand, valid_utf8(cand),
+//@     forall|q: int| len < q <= cand.len() && q <= self.buffer@.len() ==> !#[trigger] is_char_boundary(cand, q),
+//@ decreases len
+//@ ---
+//@ proof { is_char_boundary_start_end_of_seq(cand); }
+                    len -= 1;
+                }
+//@ proof { lemma_fit_unique(cand, self.buffer@.len() as int, len as int); }
+                len
+            }
         };
 
         if len > self.buffer.len() {
@@ -138,6 +181,25 @@ impl<'a> Autocompletion<'a> {
             }
             self.autocompleted = Some(len);
 //@ proof {
+//@     assert(self.cands@.drop_last() =~= old(self).cands@);
+//@     assert(self.cands@.last() == cand);
+//@     if old(self).cands@.len() == 0 { assert(cand.subrange(0, cand.len() as int) =~= cand); }
+//@     let a2 = cand.subrange(0, len as int);
+//@     if ac_sem(old(self).state(), old(self).cands@) {
+//@         if old(self).autocompleted is Some {
+//@             let cur = old(self).state().auto.unwrap();
+//@             assert(cand.subrange(0, len as int) == cur.subrange(0, len as int));
+//@             assert forall|i: int| 0 <= i < old(self).cands@.len() implies is_prefix_of(a2, #[trigger] old(self).cands@[i]) by {
+//@                 let c = old(self).cands@[i];
+//@                 assert(is_prefix_of(cur, c));
+//@                 assert(c.subrange(0, len as int) =~= c.subrange(0, cur.len() as int).subrange(0, len as int));
+//@             }
+//@         }
+//@         assert forall|i: int| 0 <= i < self.cands@.len() implies is_prefix_of(a2, #[trigger] self.cands@[i]) by {
+//@             if i < old(self).cands@.len() { assert(self.cands@[i] == old(self).cands@[i]); }
+//@             else { assert(self.cands@[i] == cand); assert(cand.subrange(0, a2.len() as int) =~= a2); }
+//@         }
+//@     }
 //@     assert(self.buffer@.subrange(0, len as int) =~= cand.subrange(0, len as int));
 //@     if len < cand.len() {
 //@         // the common prefix ends on a character boundary of the candidate, hence is well-formed
